@@ -447,6 +447,8 @@ def m2(ctx, al, module, cfg):
     und = 0
     for st in tlaval.read_dump(dump + ".dump"):
         nstates += 1
+        if st["pc"] == "pick":
+            continue
         case = norm(st["case"])
         k = case["k"]
         if st["pc"] != "done":
